@@ -89,28 +89,29 @@ theorem C10_method_meaning (items : List Item) (c : Class) (m : Method) (hc : It
       = some ⟨m.line, m.executed⟩ :=
   method_meaning items c m hc hm nd
 
-/-- Termination: on every well-nested event sequence (each start tag closed by its end tag, no
-tokenizer error) the parser returns – a result or an error – with fuel `enoughFuel`; whatever the
-elements are called and however they are nested. -/
-theorem C10_termination (evs : List XmlEvent) (h : WellNested evs) (fuel : Nat)
-    (hf : fuel ≥ enoughFuel evs) : parse evs fuel ≠ .diverge :=
-  parse_terminates evs h fuel hf
+/-- Termination, for EVERY event sequence (well nested or not, truncated anywhere, with tokenizer
+errors, any element names): with fuel `enoughFuel evs` or more the parser returns – a result or an
+error; `diverge` never occurs. (This is what C14/C07 need from the JaCoCo reader.) -/
+theorem C10_always_terminates (evs : List XmlEvent) (fuel : Nat) (hf : fuel ≥ enoughFuel evs) :
+    parse evs fuel ≠ .diverge :=
+  parse_terminates evs fuel hf
 
-/-- Only the report loop has an `Eof` arm: when the input ends inside a `<package>`, `<class>`,
-`<method>` or `<sourcefile>` element the loop reads `Eof` for ever – no fuel suffices. -/
-theorem C10_eof_inside_element_never_returns (fuel : Nat) :
-    (∀ pkg m, packageLoop pkg fuel [] m = .diverge) ∧
-    (∀ cls fns, classLoop cls fuel [] fns = .diverge) ∧
-    (∀ ex, methodLoop fuel [] ex = .diverge) ∧
-    (∀ acc, sourcefileLoop fuel [] acc = .diverge) :=
+/-- End of input inside a `<package>`, `<class>`, `<method>` or `<sourcefile>` element is
+`ParserError::Parse` (every nested loop has an `Eof` arm since 34e25d5). -/
+theorem C10_eof_inside_element_is_parse_error (fuel : Nat) :
+    (∀ pkg m, packageLoop pkg (fuel + 1) [] m = .err .parse) ∧
+    (∀ cls fns, classLoop cls (fuel + 1) [] fns = .err .parse) ∧
+    (∀ ex, methodLoop (fuel + 1) [] ex = .err .parse) ∧
+    (∀ acc, sourcefileLoop (fuel + 1) [] acc = .err .parse) :=
   ⟨fun pkg m => packageLoop_eof pkg fuel m, fun cls fns => classLoop_eof cls fuel fns,
    fun ex => methodLoop_eof fuel ex, fun acc => sourcefileLoop_eof fuel acc⟩
 
-/-- A closed witness of the hang (finding C10-eof-in-nested-loop-hang): the report
-`<report><package name="p"><class name="p/A"><method name="m" line="1">` cut at that point never
-returns, whatever the fuel. -/
-theorem C10_truncated_report_never_returns (fuel : Nat) : parse exTruncated fuel = .diverge :=
-  exTruncated_diverges fuel
+/-- The former hang witness: the report
+`<report><package name="p"><class name="p/A"><method name="m" line="1">` cut at that point is a
+`Parse` error with any fuel ≥ 5 (its `enoughFuel` is 9). -/
+theorem C10_truncated_report_is_parse_error (fuel : Nat) :
+    parse exTruncated (fuel + 5) = .err .parse :=
+  exTruncated_parse_error fuel
 
 /-- A `<package>` without a `name` attribute is `ParserError::InvalidRecord`. -/
 theorem C10_missing_package_name_is_invalid_record (n : Name) (a : List Attr)
@@ -165,9 +166,9 @@ example : wf exNoisy = true ∧ wf exPlain = true ∧ abs exNoisy = abs exPlain
 example : parse (events exNoisy) (enoughFuel (events exNoisy)) = .ok exExpected
     ∧ sem (abs exNoisy) = exExpected := by decide +kernel
 
-/-- the event sequences of both are well nested, the truncated one is not -/
-example : WellNested (events exNoisy) ∧ WellNested (events exPlain) ∧ ¬ WellNested exTruncated := by
-  unfold WellNested; decide +kernel
+/-- the truncated witness at its `enoughFuel` -/
+example : enoughFuel exTruncated = 9 ∧ parse exTruncated (enoughFuel exTruncated) = .err .parse := by
+  decide +kernel
 
 /-- error kinds on concrete malformed elements: `<package>` without name; `<line nr="x" …>`;
 `<line>` without `nr`; a repeated attribute before the wanted one -/
